@@ -120,6 +120,9 @@ def quick_deviations():
     # isolated X-point topology (TORPEX g-file path)
     out.append(mkx(True, 1.0))
     out.append(mkx(True, -1.0))
+    # inner and outer SOL of different radial extent: the two inner legs share one psi grid, the
+    # two outer legs another
+    out.append(mkx(True, 1.0, opt=dict(psi_sol_inner=2.0e-4)))
     # (non-orthogonal isolated X-point: refused with the 'line' refine method and does not
     # terminate with refine_timeout=None and the integrate methods - not a corpus member)
     # profile grid that extends beyond the separatrix; quadratic fpol
